@@ -433,30 +433,30 @@ package simplefixgo
 // new Conn around the accepted socket and asks the factory for a new handler for each
 // accepted connection.
 //@ func NewConn(ctx context.Context, conn net.Conn, msgBuffSize int, writeDeadline time.Duration) (c *Conn)
-//@   ensures[C04] @own c != nil && fresh(c) && fresh(c.reader) && fresh(c.writer) && c.reader != c.writer
-//@   ensures[C04] @socket c.conn == conn && c.ctx != nil
+//@   ensures[C04,C05,C07] @own c != nil && fresh(c) && fresh(c.reader) && fresh(c.writer) && c.reader != c.writer
+//@   ensures[C04,C05,C07] @socket c.conn == conn && c.ctx != nil
 
 //@ func NewAcceptorHandler(ctx context.Context, msgTypeTag string, bufferSize int) (sh *DefaultHandler)
-//@   ensures[C04] @own sh != nil && fresh(sh) && fresh(sh.out) && fresh(sh.incoming) && fresh(sh.errors) && sh.out != sh.incoming
-//@   ensures[C04,C19] @pools fresh(sh.incomingHandlers.HandlerPool) && fresh(sh.outgoingHandlers.HandlerPool) && sh.incomingHandlers.HandlerPool != sh.outgoingHandlers.HandlerPool && sh.msgTypeTag == msgTypeTag
+//@   ensures[C04,C05,C07] @own sh != nil && fresh(sh) && fresh(sh.out) && fresh(sh.incoming) && fresh(sh.errors) && sh.out != sh.incoming
+//@   ensures[C04,C19,C05,C07] @pools fresh(sh.incomingHandlers.HandlerPool) && fresh(sh.outgoingHandlers.HandlerPool) && sh.incomingHandlers.HandlerPool != sh.outgoingHandlers.HandlerPool && sh.msgTypeTag == msgTypeTag
 
 //@ func NewInitiatorHandler(ctx context.Context, msgTypeTag string, bufferSize int) (sh *DefaultHandler)
-//@   ensures[C04] @own sh != nil && fresh(sh) && fresh(sh.out) && fresh(sh.incoming) && fresh(sh.errors) && sh.out != sh.incoming
-//@   ensures[C04,C19] @pools fresh(sh.incomingHandlers.HandlerPool) && fresh(sh.outgoingHandlers.HandlerPool) && sh.incomingHandlers.HandlerPool != sh.outgoingHandlers.HandlerPool && sh.msgTypeTag == msgTypeTag
+//@   ensures[C04,C05,C07] @own sh != nil && fresh(sh) && fresh(sh.out) && fresh(sh.incoming) && fresh(sh.errors) && sh.out != sh.incoming
+//@   ensures[C04,C19,C05,C07] @pools fresh(sh.incomingHandlers.HandlerPool) && fresh(sh.outgoingHandlers.HandlerPool) && sh.incomingHandlers.HandlerPool != sh.outgoingHandlers.HandlerPool && sh.msgTypeTag == msgTypeTag
 
 //@ interface HandlerFactory
 //@   implementations *AcceptorHandlerFactory
 //@   method MakeHandler(ctx context.Context) (res AcceptorHandler):
-//@     ensures[C04] @perconnection res != nil && fresh(res)
+//@     ensures[C04,C05,C07] @perconnection res != nil && fresh(res)
 
 //@ func (s *Acceptor) serve(parentCtx context.Context, netConn net.Conn)
 //@   requires s != nil && s.factory != nil && netConn != nil
 //@   callback pure
 //@   call NewConn#1:
 //@     witness conn = ret
-//@     assert[C04] @thissocket arg1 == netConn && ret.conn == netConn && fresh(ret) && fresh(ret.reader)
+//@     assert[C04,C05,C07] @thissocket arg1 == netConn && ret.conn == netConn && fresh(ret) && fresh(ret.reader)
 //@   call MakeHandler#1:
-//@     assert[C04] @newhandler ret != nil && fresh(ret)
+//@     assert[C04,C05,C07] @newhandler ret != nil && fresh(ret)
 
 // The accept loop serves exactly the connection it has just accepted, each in a
 // goroutine of its own that receives the connection by value.
